@@ -61,7 +61,7 @@ def gen_program(rng: random.Random, *, max_entities=5, max_initial=24, allow_cra
     pool = [rng.choice(T0_CHOICES_NS) for _ in range(rng.randint(1, 4))]
     initial = [
         {"t": rng.choice(pool), "to": rng.randrange(n_ent), "k": rng.randrange(n_kinds),
-         "daemon": rng.random() < 0.2, "cancel": rng.random() < 0.1}
+         "daemon": rng.random() < 0.2, "cancel": rng.choice([True, "late"]) if rng.random() < 0.12 else False}
         for _ in range(n_init)
     ]
     order = list(range(n_init))
@@ -98,6 +98,7 @@ class ProgramRunner:
         self.entities = [ScriptEntity(f"E{i}", i, self) for i in range(prog["n_entities"])]
         self.sim = None
         self.uid_of: dict[int, int] = {}
+        self.late_cancels: list[Event] = []
 
     def new_event(self, t_ns: int, to: int, k: int, daemon: bool) -> Event:
         ev = Event(time=Instant(t_ns), event_type=f"k{k}", target=self.entities[to], daemon=daemon)
@@ -118,7 +119,9 @@ class ProgramRunner:
         created = []
         for ini in self.prog["initial"]:
             ev = self.new_event(ini["t"], ini["to"], ini["k"], ini.get("daemon", False))
-            if ini.get("cancel"):
+            if ini.get("cancel") == "late":
+                self.late_cancels.append(ev)   # cancelled after schedule(), before run()
+            elif ini.get("cancel"):
                 ev.cancel()
             created.append(ev)
         order = self.prog.get("sched_order") or list(range(len(created)))
@@ -126,6 +129,10 @@ class ProgramRunner:
         seen = set(order)
         order += [i for i in range(len(created)) if i not in seen]
         return [created[i] for i in order]
+
+    def apply_late_cancels(self) -> None:
+        for ev in self.late_cancels:
+            ev.cancel()
 
 
 class ScriptEntity(Entity):
